@@ -4,6 +4,7 @@ import (
 	"context"
 	"encoding/json"
 	"fmt"
+	"github.com/herohde/morlock/cmd/sargon/sargon"
 	"strings"
 	"sync"
 
@@ -57,13 +58,43 @@ func (t *recTT) Used() float64 { return t.inner.Used() }
 // posRec remembers which position each hash belongs to; the search tells us through the
 // Exploration and QuietSearch seams, which are called with the board at every node.
 type posRec struct {
-	byHash map[board.ZobristHash]string
+	byHash   map[board.ZobristHash]string
+	children map[board.ZobristHash]string
+	expanded map[string]bool
 }
 
 func (r *posRec) note(b *board.Board) {
 	if _, ok := r.byHash[b.Hash()]; !ok {
 		r.byHash[b.Hash()] = bridge.ToRef(b.Position(), b.Turn()).FEN(0, 1)
 	}
+}
+
+// childOf looks the hash up among the positions one move away from the recorded ones.
+func (r *posRec) childOf(h board.ZobristHash) (string, bool) {
+	if r.children == nil {
+		r.children = map[board.ZobristHash]string{}
+	}
+	if f, ok := r.children[h]; ok {
+		return f, true
+	}
+	for _, f := range r.byHash {
+		if r.expanded[f] {
+			continue
+		}
+		if r.expanded == nil {
+			r.expanded = map[string]bool{}
+		}
+		r.expanded[f] = true
+		b := bridge.NewBoard(f, 0)
+		for _, m := range b.Position().LegalMoves(b.Turn()) {
+			if b.PushMove(m) {
+				r.children[b.Hash()] = bridge.ToRef(b.Position(), b.Turn()).FEN(0, 1)
+				b.PopMove()
+			}
+		}
+	}
+	f, ok := r.children[h]
+	return f, ok
 }
 
 type recQuiet struct {
@@ -89,6 +120,12 @@ func ttSearch(kind string, rec *posRec) (search.AlphaBeta, refsearch.Config) {
 	switch kind {
 	case "static":
 		return search.AlphaBeta{Explore: recExplore(rec), Eval: recQuiet{leaf, rec}}, refsearch.Config{Leaf: refsearch.Static, Eval: leaf}
+	case "onecheck": // SARGON's plumbing over a position-determined leaf: no under-promotions, one more full-width ply when in check
+		return search.AlphaBeta{Explore: func(ctx context.Context, b *board.Board) (board.MovePriorityFn, board.MovePredicateFn) {
+				rec.note(b)
+				return sargon.SkipUnderPromotions(ctx, b)
+			}, Eval: recQuiet{sargon.OnePlyIfChecked{Leaf: leaf}, rec}},
+			refsearch.Config{Explore: sargon.SkipUnderPromotions, Leaf: refsearch.OneIfCheck, Eval: leaf}
 	case "quiescence":
 		return search.AlphaBeta{Explore: recExplore(rec), Eval: recQuiet{search.Quiescence{Explore: capturesOnly, Eval: leaf}, rec}},
 			refsearch.Config{Leaf: refsearch.Quiesce, QExplore: capturesOnly, QPredPure: true, Eval: leaf, QMemo: &quietMemo}
@@ -298,6 +335,9 @@ func runC11(ctx context.Context, cs c11case, vm *valueMemo) (res c11result) {
 			}
 			f, ok := rec.byHash[w.Hash]
 			if !ok {
+				f, ok = rec.childOf(w.Hash) // a search nested inside the leaf evaluation visits positions the seams do not see
+			}
+			if !ok {
 				add("unknown-hash", "an entry was stored under a hash the search never visited")
 				continue
 			}
@@ -378,12 +418,13 @@ var ttRoots = []searchRoot{
 	{"r5nr/R2nk1pp/5p2/1ppppb1q/1P3P2/K2PP1PB/2PbQ2P/1N4NR b - - 3 16", nil, "rich"},
 	{"r1bq1rk1/pp2bppp/2n1pn2/2pp4/3P1B2/2PBPN2/PP1N1PPP/R2QK2R w KQ - 0 8", nil, "rich"},
 	{"2r3k1/pp3ppp/2n1b3/3pP3/3P1B2/P4N2/1q3PPP/R2Q2K1 w - - 0 18", nil, "rich"},
+	{"r1bq2kr/pp3ppp/8/1p2n3/7b/P1N5/1PP3PP/RNB3KR w - - 1 15", nil, "rich"}, // depth 2 and depth 3 agree on the score but not on the best move
 }
 
 func checkC11(c *harness.Check) {
 	mustAnchors(c)
 	sizes := []uint64{32, 64, 512, 32768, 1 << 20}
-	c.Rule = fmt.Sprintf("roots with position-determined evaluation and exploration (static material leaf; captures-only quiescence over material) whose trees cannot contain a repetition or fifty-move draw x depth <= D x table sizes %v bytes x sequences of searches sharing ONE table (iterative deepening 1..d then d again; the same root at d,d,d-1,d; successive positions of a game along the PV; iterative deepening 1..d at every second position of a game along the PV, as an engine playing a game does; for the low-branching roots: iterative deepening, then EVERY move and EVERY reply, then iterative deepening again). All of it again with the table behind NewMinDepthTranspositionTable(1|2) (the wrapper cmd/morlock uses) for two sizes. Oracle per search: score == score without table == reference minimax; PV non-empty and its first move attains the reference value; EVERY ExactBound store (hash mapped back to its position through the Exploration/QuietSearch seams) equals the reference value of that position at that depth, and so does every exact entry the table HOLDS after the search for any position visited (table swept by Read). Capture-rich middlegame roots (shallow, most entries quiescence leaves), where exhaustive minimax is out of reach: there the value of (position, depth) is what the search itself returns for it on a fresh board without a table. plus a single-bit key probe: an entry stored under h is never returned for h with any one of its 64 bits flipped (all table sizes). distinct_nontrivial = distinct (position, depth) pairs of validated exact entries", sizes)
+	c.Rule = fmt.Sprintf("roots with position-determined evaluation and exploration (static material leaf; captures-only quiescence over material) whose trees cannot contain a repetition or fifty-move draw x depth <= D x table sizes %v bytes x sequences of searches sharing ONE table (iterative deepening 1..d then d again; the same root at d,d,d-1,d; successive positions of a game along the PV; iterative deepening 1..d at every second position of a game along the PV, as an engine playing a game does; for the low-branching roots: iterative deepening, then EVERY move and EVERY reply, then iterative deepening again). All of it again with the table behind NewMinDepthTranspositionTable(1|2) (the wrapper cmd/morlock uses) for two sizes. Through the iterative-deepening DRIVER: every position within 2 plies of a capture-rich root analysed three times to depth 3 on one table - every iteration reported carries the table-free score of its depth and a variation whose first move is worth it. Oracle per search: score == score without table == reference minimax; PV non-empty and its first move attains the reference value; EVERY ExactBound store (hash mapped back to its position through the Exploration/QuietSearch seams) equals the reference value of that position at that depth, and so does every exact entry the table HOLDS after the search for any position visited (table swept by Read). Capture-rich middlegame roots (shallow, most entries quiescence leaves), where exhaustive minimax is out of reach: there the value of (position, depth) is what the search itself returns for it on a fresh board without a table. plus a single-bit key probe: an entry stored under h is never returned for h with any one of its 64 bits flipped (all table sizes). distinct_nontrivial = distinct (position, depth) pairs of validated exact entries", sizes)
 	var cases []c11case
 	for _, r := range ttRoots {
 		max := c.Pick(3, 4)
@@ -393,7 +434,10 @@ func checkC11(c *harness.Check) {
 		if strings.Contains(r.Tags, "rich") {
 			max = c.Pick(3, 4)
 		}
-		for _, kind := range []string{"static", "quiescence"} {
+		for _, kind := range []string{"static", "quiescence", "onecheck"} {
+			if kind == "onecheck" && strings.Contains(r.Tags, "rich") {
+				continue
+			}
 			for _, size := range sizes {
 				for _, seq := range []string{"deepen", "repeat", "game", "gamedeepen"} {
 					for d := 2; d <= max; d++ {
@@ -471,6 +515,7 @@ func checkC11(c *harness.Check) {
 			c.Violation(cc.sig("C11/"+p.cls, cs.String()), p.msg+"\n    case: "+cs.String(), "C11/case", cs)
 		}
 	})
+	iterativeFamily(c, vmRich)
 	for _, m := range []*valueMemo{vm, vmRich} {
 		m.mu.Lock()
 		c.States.Add(int64(len(m.m)))
